@@ -336,7 +336,8 @@ func genC06(r *Rng) *Scenario {
 		}
 		o.RawHex, o.Class = hex.EncodeToString(frame(0x32+byte(r.IntN(2))*2, body)), "no-room-for-id"
 	case 10: // U+0000 in topic
-		body := append(putStr(nil, "a\x00b"), 'x')
+		topic := []string{"a\x00b", "\x00", "a\x00", "\u00e9\x00", "a\u00e9\x00b", "\u20ac\x00", "\U0001F600\x00x", "\u00e9\u00e9\x00"}[r.IntN(8)]
+		body := append(putStr(nil, topic), 'x')
 		o.RawHex, o.Class = hex.EncodeToString(frame(0x30, body)), "nul-in-topic"
 	case 11: // random bit flips in a well-formed packet: gray unless it crashes
 		pk := append([]byte{}, good...)
@@ -908,6 +909,11 @@ func genC12Base(r *Rng) *Scenario {
 			}
 		} else {
 			op = Op{Kind: "retryhandle", Target: prev}
+			if r.chance(0.15) {
+				// the same handle is first tried on a client that is not connected
+				// (nothing is sent, ErrNotConnected): it must still work afterwards
+				sc.Ops = append(sc.Ops, Op{AtUs: t - 500, Actor: 40 + d, Kind: "retryhandle", Target: prev, Cli: depth + 1 + d})
+			}
 		}
 		op.AtUs, op.Actor, op.Cli = t, 20+d, cli
 		sc.Ops = append(sc.Ops, op)
